@@ -319,3 +319,44 @@ Section PValueExecuted.
   Proof. intros Hn. rewrite pvalue_q2r. apply pvalue_range. destruct samples; [congruence|discriminate]. Qed.
 End PValueExecuted.
 
+
+(* ====================================================================================== *)
+(* Part 6 : examples (non-vacuity of the premises, behaviour on ties)                      *)
+(* ====================================================================================== *)
+Section Examples.
+  Definition z (n : Z) : Qc := mkq n 1.
+  (* ties are counted: three of the four samples are >= 2 *)
+  Example pvalue_ties : qout (@pvalue QcNum [z 1; z 2; z 2; z 3] (z 2)) = (3%Z, 4%positive).
+  Proof. vm_compute. reflexivity. Qed.
+  Example pvalue_outside : (qout (@pvalue QcNum [z 1; z 2; z 2; z 3] (z 4)), qout (@pvalue QcNum [z 1; z 2; z 2; z 3] (z 0))) = ((0%Z, 1%positive), (1%Z, 1%positive)).
+  Proof. vm_compute. reflexivity. Qed.
+  (* the median of 3,1,2,2,5,4,4,4 by the linear rule: index 3.5 of the sorted vector -> (3 + 4) / 2 *)
+  Example percentile_median : option_map qout (@percentile_linear QcNum [z 3; z 1; z 2; z 2; z 5; z 4; z 4; z 4] (z 50)) = Some (7%Z, 2%positive).
+  Proof. vm_compute. reflexivity. Qed.
+  Example percentile_ends :
+    (option_map qout (@percentile_linear QcNum [z 3; z 1; z 2] (z 0)), option_map qout (@percentile_linear QcNum [z 3; z 1; z 2] (z 100)),
+     option_map qout (@percentile_linear QcNum [z 3; z 1; z 2] (z 101)))
+    = (Some (1%Z, 1%positive), Some (3%Z, 1%positive), None).
+  Proof. vm_compute. reflexivity. Qed.
+
+  (* a partition that is not in order: term 0 owns target positions 2 and 0, term 1 owns position 1 *)
+  Example stitch_example : stitch nat 0%nat [[2; 0]; [1]]%nat [[10; 20]; [30]]%nat = [20; 30; 10]%nat
+                           /\ split nat 0%nat [[2; 0]; [1]]%nat [20; 30; 10]%nat = [[10; 20]; [30]]%nat.
+  Proof. split; reflexivity. Qed.
+  Example is_partition_example : is_partition [[2; 0]; [1]]%nat.
+  Proof. split; [repeat constructor; simpl; intuition discriminate|]. simpl. intros j Hj. intuition lia. Qed.
+
+  (* toy dataflow with concrete stubs: parameters = the POI the fit was run at, datasets = (parameters, toy index) *)
+  Example toy_example :
+    @distributions QcNum Qc (Qc * nat) (fun poi => poi) (fun k pars n => map (fun i => (pars, i)) (seq 0 n))
+                   (fun ts poi d => (fst d + poi)%Qc) TQtilde 2 (z 3)
+    = ([(z 3 + z 3)%Qc; (z 3 + z 3)%Qc], [(0 + z 3)%Qc; (0 + z 3)%Qc]).
+  Proof. reflexivity. Qed.
+  Example toy_example_q0 :
+    fst (snd (@distributions QcNum Qc (Qc * nat) (fun poi => poi) (fun k pars n => map (fun i => (pars, i)) (seq 0 n))
+                   (fun ts poi d => fst d) TQ0 1 (z 0)), fst (@distributions QcNum Qc (Qc * nat) (fun poi => poi) (fun k pars n => map (fun i => (pars, i)) (seq 0 n))
+                   (fun ts poi d => fst d) TQ0 1 (z 0)))
+    = [1%Qc].
+  Proof. reflexivity. Qed.
+End Examples.
+
